@@ -25,6 +25,8 @@ def run(ck, facts):
     ck.rule("R1", "attribute agreement: every #[diplomat::X] the AST layer gives meaning to is accepted (not panicked on) by the bridge macro")
     ck.rule("R2", "strip coverage: for every syn node kind whose attributes the AST layer reads, the macro extracts (strips) that node's attributes, so rustc never sees diplomat attributes")
     ck.rule("R3", "use => include pairing: every generator arm that names a custom type also records the include / forward declaration for the same id, through the same path formatter that names generated files; C++ relative include paths are computed per path component")
+    ck.rule("R6", "callback arguments: every converting arm of the macro's param_conversion converts toward the given FFI type when one is given (callbacks pass values outward), and every C++ "
+                  "argument type the cpp backend prints for an accepted callback parameter is one the runtime's fn_traits::replace can build from the C argument")
     ck.rule("R5", "no dangling names in generated files: both payloads of a C result union pass the zero-sized-struct filter before being named; the JS generator removes the "
                   "self-import under the emitted (renamed) type name; every extern fn template of the macro carries the method's #[cfg]")
     ck.rule("R4", "identifier escaping: every emitted C/C++ parameter name passes through fmt_identifier, whose C table covers the C keywords and whose C++ table covers the C++ keywords")
@@ -261,3 +263,58 @@ def run(ck, facts):
                               "an extern \"C\" fn template in %s lacks %s: the shim is emitted even when the method it calls is compiled out by #[cfg] (or is mangled)" % (f["name"], "#cfg" if has_nm else "#[no_mangle]"), C.loc(f, n.get("ln")))
     if nt < 3:
         ck.bad("R5", "macro/extern-template-floor", "only %d extern fn templates found in the macro (3 counted)" % nt)
+
+
+    # ---------------- R6 callback arguments
+    # (a) macro: direction of the conversion
+    pc = facts.macro.fn("param_conversion")
+    mt = next((n for n in C.walk(C.fn_body(pc)) if n.get("k") == "match" and (n.get("sadt") or "").endswith("ast::types::TypeName")), None)
+    if not mt:
+        ck.bad("R6", "macro::param_conversion/anchor", "match on TypeName not found", C.loc(pc))
+    else:
+        na = 0
+        for arm in mt["arms"]:
+            pv = arm["pat"]
+            names = sorted({(v or "").split("::")[-1] for v in [pv.get("v")] + [a_.get("v") for a_ in (pv.get("alts") or [])] if v})
+            quotes = [m_.get("src", "") for m_ in C.walk(arm["b"]) if m_.get("k") == "macro" and m_.get("name") in ("quote", "parse_quote")]
+            annotated = [q for q in quotes if re.search(r"let\s+#name\s*:", q)]
+            if not annotated or "Function" in names:
+                continue
+            na += 1
+            uses_cast = any(x.get("k") == "local" and x.get("n") == "cast_to" for x in C.walk(arm["b"]))
+            ck.expect(uses_cast, "R6", "macro::param_conversion/%s/uses-cast_to" % "+".join(names), "annotated conversion depends on cast_to",
+                      "the %s arm annotates its conversion with a fixed (incoming-direction) type and ignores `cast_to`: for a callback argument the Rust value is handed to the "
+                      "foreign function pointer unconverted (E0308 in the macro expansion)" % "+".join(names), C.loc(pc, arm.get("ln")))
+        if na < 2:
+            ck.bad("R6", "macro::param_conversion/floor", "only %d annotated converting arms found (2 counted: slices/Result, Option)" % na, C.loc(pc))
+    # (b) C++: argument wrappers vs fn_traits::replace
+    import c05
+    if not c05.LAST_TABLE:
+        c05.run(C.SubCheck(ck, "R6", "", []), facts)
+    tab = c05.LAST_TABLE
+
+    def accepted(pred):
+        return sorted(sh for (sh, pos, pn), v in tab.items() if pos == "cbparam" and pn == "all" and pred(sh) and (v == "accept"))
+    rth = C.read_repo("tool/templates/cpp/runtime.hpp.jinja")
+    i0 = rth.find("struct as_ffi")
+    i1 = rth.find("fn_traits(T) -> fn_traits<T>")
+    region = rth[i0:i1] if i0 >= 0 and i1 > i0 else ""
+    ck.expect(bool(region), "R6", "cpp/fn_traits/anchor", "", "fn_traits region not found in runtime.hpp.jinja", "tool/templates/cpp/runtime.hpp.jinja")
+    cf = [f for f in tool.fn_list if "::cpp::formatter::" in f["path"] and "hir" in f]
+    fmt_lits = " ".join(l for f in cf for l in C.str_lits(C.fn_body(f)) + [m_.get("src", "") for m_ in C.walk(C.fn_body(f)) if m_.get("k") == "macro"])
+    wrappers = [
+        ("std::optional", lambda sh: sh.startswith("opt(") and not sh.startswith("opt(ref(") and not sh.startswith("opt(box("), "Option<primitive/enum/struct>"),
+        ("diplomat::span", lambda sh: sh.startswith("pslice:borrowed"), "&[primitive]"),
+        ("std::u16string_view", lambda sh: sh.startswith("str:borrowed"), "&DiplomatStr16"),
+        ("std::string_view", lambda sh: sh.startswith("str:borrowed"), "&str / &DiplomatStr"),
+    ]
+    for w, pred, human in wrappers:
+        acc = accepted(pred)
+        printed = w in fmt_lits
+        handled = w in region
+        if not acc or not printed:
+            ck.ok("R6", "cpp-callback-arg/" + w, "not accepted as a callback parameter or not printed by the formatter")
+            continue
+        ck.expect(handled, "R6", "cpp-callback-arg/" + w, "fn_traits handles " + w,
+                  "the gate accepts %s as a callback parameter (%s) and the C++ backend declares the std::function argument as %s<..>, but fn_traits::replace / replace_fn_t have no case for "
+                  "it: the generated header does not compile" % (human, acc[:2], w), "tool/templates/cpp/runtime.hpp.jinja")
